@@ -107,13 +107,36 @@ def systematic(ctx, rng, methods, all_kinds):
                 label = ebb3mon.fault_label(fault)
                 cause = "%s|%s|%d" % (name, label, at)
                 scen = {"board": board, "setup": "attach",
-                        "steps": [dict(step, faults=[fault])] + follower_steps(rng)}
+                        "steps": [dict(step, faults=[fault])] + follower_steps(rng) +
+                        [{"m": "disconnect", "a": []}, faulty_connect(rng)] + follower_steps(rng, rng.sample(FOLLOWERS, 4))}
                 _f, world, tops = run_case(ctx, ["systematic latch cause", "cause-fault:" + label], scen, cause=cause, prefix=1)
                 if world.obj.err is None and world.obj.port is not None:
                     # the fault did not latch (e.g. reboot ignores write faults): followers ran clean
                     ctx.count("observed:fault did not latch (%s)" % name)
                 else:
                     causes.add(cause)
+
+
+def faulty_connect(rng):
+    """A connect() step that fails in one of the ways a re-connect can fail."""
+    c = rng.randrange(7)
+    step = {"m": "connect", "a": []}
+    if c == 0:
+        step["open_fault"] = rng.choice(["SerialException", "SerialTimeoutException"])
+    elif c == 1:
+        step["faults"] = [{"op": rng.choice(["read", "write"]), "at": 0, "kind": "raise",
+                           "exc": rng.choice(["SerialException", "SerialTimeoutException", "PortNotOpenError"])}]
+    elif c == 2:
+        step["faults"] = [{"op": "read", "at": 0, "kind": "silence"}]
+    elif c == 3:
+        step["reply"] = {"0": "Arduino Uno\r\n", "1": "Arduino Uno\r\n"}
+    elif c == 4:
+        step["reply"] = {"0": "\xff\xfe\r\n", "1": "\xff\xfe\r\n"}
+    elif c == 5:
+        step["ports"] = []
+    else:
+        step["reply"] = {"0": "EBBv13_and_above EB Firmware Version 2.8.1\r\n"}
+    return step
 
 
 def special_states(ctx, rng):
@@ -145,6 +168,11 @@ def special_states(ctx, rng):
         scen2 = dict(base, steps=prefix + [{"m": "connect", "a": []}] + follower_steps(rng, FOLLOWERS[:8]) +
                      [{"m": "disconnect", "a": []}] + follower_steps(rng, FOLLOWERS[8:16]), expect_setup_failure=True)
         run_case(ctx, ["special state + reconnect", "special:" + label], scen2, cause=label + "+reconnect")
+        # ... and a re-connect that itself fails must not replace the first message either
+        scen3 = dict(base, steps=prefix + [{"m": "disconnect", "a": []}, faulty_connect(rng)] +
+                     follower_steps(rng, FOLLOWERS[16:24]) + [faulty_connect(rng)] + follower_steps(rng, FOLLOWERS[24:]),
+                     expect_setup_failure=True)
+        run_case(ctx, ["special state + failing reconnect", "special:" + label], scen3, cause=label + "+failing reconnect")
 
 
 def history(ctx, rng):
@@ -157,8 +185,10 @@ def history(ctx, rng):
         c = rng.random()
         if c < 0.06:
             steps.append({"m": "disconnect", "a": []})
-        elif c < 0.14:
+        elif c < 0.11:
             steps.append({"m": "connect", "a": []})
+        elif c < 0.14:
+            steps.append(faulty_connect(rng))
         elif c < 0.17:
             steps.append({"m": "record_error", "a": ["history error %d" % i]})
         else:
@@ -201,6 +231,7 @@ def run(ctx):
     ctx.need("state:unconnected", 300)
     ctx.need("random history", 200)
     ctx.need("special state", 100)
+    ctx.need("special state + failing reconnect", 100)
     if ctx.nshards == 1:
         ctx.need("systematic latch cause", 2000)
         for name in FOLLOWERS:
